@@ -842,8 +842,11 @@ func (ex *Exec) enterLoop(st *State, b *ssa.BasicBlock, prev *ssa.BasicBlock, or
 		grew := false
 		for _, o := range outs {
 			// values poisoned by an aliasing append inside the body stay poisoned in the next iteration
-			if o.St.Fr != nil && o.St.Fr.Fn == fn {
+			if o.St.Fr != nil && o.St.Fr.Fn == fn && o.Msg == "spec-backedge" {
 				for k, v := range o.St.Fr.Env {
+					if phi, isPhi := k.(*ssa.Phi); isPhi && phi.Block() == b {
+						continue // re-assigned at every iteration
+					}
 					if op, isOp := v.(Opaque); isOp && strings.HasPrefix(op.Why, "slice sharing") {
 						if _, was := st.Fr.Env[k].(Slice); was && !poisoned[k] {
 							poisoned[k] = true
@@ -880,7 +883,7 @@ func (ex *Exec) enterLoop(st *State, b *ssa.BasicBlock, prev *ssa.BasicBlock, or
 	// 3. havoc, assume invariant
 	ex.havocLoop(st, b, wObjs, wKeys)
 	for k := range poisoned {
-		st.Fr.Env[k] = Opaque{Why: "slice sharing a backing array that an append(alias[:n], ...) in an earlier iteration may have overwritten"}
+		st.Fr.Env[k] = Opaque{Why: "slice sharing a backing array that an append(alias[:n], ...) in an earlier iteration may have overwritten (" + k.Name() + ")"}
 	}
 	sc = ex.loopScope(st, b, ord)
 	for _, inv := range lc.Invariants {
